@@ -424,6 +424,11 @@ func c16(c *Ctx) {
 		sort.Slice(ps, func(i, j int) bool { return ps[i] < ps[j] })
 		for _, b := range ps {
 			for _, e := range ps {
+				if b == e && b > 0 {
+					// zero-length interval: the specification's function still defines its bin ([beg, beg-1])
+					c16csiBin(c, b, e, ms, d)
+					ce++
+				}
 				if b < e {
 					c16csiBin(c, b, e, ms, d)
 					if ms+3*d <= 20 || e-b < int64(1)<<uint(ms+9) {
